@@ -17,8 +17,10 @@
    Every partial Rust operation on the path is an explicit [Panic] (debug-build semantics):
    i32 `+ - neg` overflow, `i64::abs` of i64::MIN.
 
-   [fx] selects the code as it is (false) or as repaired by fixes/C20-decimal-exponent.diff
-   (true); see notes/C20.md.  The two differ only in [flog10]. *)
+   [fx] selects the code before (false) or after (true) /repo commit 60da55e
+   (fixes/C20-decimal-exponent.diff, finding C20-F1); the two differ only in [flog10].
+   THE MODEL IS fx = true; fx = false is kept to pin the regression witness and because the
+   theorems that do not depend on the variant are stated for both.  See notes/C20.md. *)
 From Coq Require Import ZArith Floats.SpecFloat Bool List String Ascii.
 Require Import Blots.Num Blots.Outcome.
 Import ListNotations.
@@ -155,10 +157,10 @@ Section Display.
   Variable fmt_prec : num -> Z -> text.        (* format!("{:.prec$}", x) *)
   Variable fmt_exp14 : num -> text.            (* format!("{:.14e}", x) *)
   Variable parse_f64 : text -> option num.     (* str::parse::<f64>().ok() *)
-  (* false: /repo as it is; true: with fixes/C20-decimal-exponent.diff applied *)
+  (* true: /repo as it is (since 60da55e); false: the code before that fix *)
   Variable fx : bool.
 
-  (* `a.log10().floor() as i32` as the code has it; the repaired code corrects the estimate:
+  (* fn decimal_exponent (fx = true); before 60da55e it was `a.log10().floor() as i32` inline:
        fn decimal_exponent(abs_value: f64) -> i32 {
            let estimate = abs_value.log10().floor() as i32;
            if abs_value < 10_f64.powi(estimate) { estimate - 1 } else { estimate }
